@@ -41,6 +41,9 @@ func (r *result) put(obs J) {
 		obs["msg"] = r.Msg
 		obs["srcerr"] = r.IsSrcErr
 	}
+	if r.Outcome == "unstable" {
+		obs["msg"] = r.Msg
+	}
 	if r.Outcome == "panic" {
 		obs["panic"] = r.PanicVal
 		obs["panicat"] = r.PanicAt
@@ -101,6 +104,7 @@ type renderSetup struct {
 	path     string // absolute (under root) or ""
 	line0    int
 	root     string // temp dir holding the case's files, or ""
+	repeat   int    // how many times the parsed template is rendered (results must agree)
 }
 
 func (rs *renderSetup) cleanup() {
@@ -140,7 +144,7 @@ func prepareRender(c J) (*renderSetup, error) {
 			}
 		}
 	}
-	rs := &renderSetup{bindings: env, line0: jint(c, "line0")}
+	rs := &renderSetup{bindings: env, line0: jint(c, "line0"), repeat: jint(c, "repeat")}
 	files, cache := jarr(c, "files"), jarr(c, "cache")
 	path := bytesOf(c["path"])
 	if len(files) > 0 || len(cache) > 0 || jbool(c, "usedir") {
@@ -237,14 +241,25 @@ func doRender(rs *renderSetup, entry string) result {
 			if err != nil {
 				return errResult("parse", err, rs.root)
 			}
-			out, err := tpl.Render(rs.bindings)
-			if err != nil {
-				if out != nil {
-					return result{Outcome: "error", Stage: "render-with-output", Msg: "output returned together with an error"}
+			render := func() result {
+				out, err := tpl.Render(rs.bindings)
+				if err != nil {
+					if out != nil {
+						return result{Outcome: "error", Stage: "render-with-output", Msg: "output returned together with an error"}
+					}
+					return errResult("render", err, rs.root)
 				}
-				return errResult("render", err, rs.root)
+				return result{Outcome: "ok", Out: out}
 			}
-			return result{Outcome: "ok", Out: out}
+			first := render()
+			// the same parsed template rendered again with the same bindings must give the same result
+			for i := 1; i < rs.repeat; i++ {
+				again := render()
+				if again.Outcome != first.Outcome || !bytes.Equal(again.Out, first.Out) {
+					return result{Outcome: "unstable", Out: again.Out, Msg: fmt.Sprintf("render %d of the same template and bindings differs from the first: %q vs %q", i+1, truncate(string(again.Out), 120), truncate(string(first.Out), 120))}
+				}
+			}
+			return first
 		case "RenderString":
 			tpl, err := eng.ParseTemplateLocation([]byte(rs.src), rs.path, rs.line0)
 			if err != nil {
